@@ -623,7 +623,7 @@ fn main() {
     );
     sched::install();
     let miri = rep.is_miri();
-    let block_wait = Duration::from_millis(a.pick(60, 150));
+    let block_wait = Duration::from_millis(60);
 
     if let Some(p) = &a.replay {
         let v: Value = serde_json::from_str(&std::fs::read_to_string(p).unwrap()).unwrap();
@@ -658,7 +658,7 @@ fn main() {
     }
 
     if miri {
-        stress(&rep, a.seed, 0, 4, true);
+        stress(&rep, a.seed, 0, 12, true);
         rep.finish();
         return;
     }
@@ -690,10 +690,10 @@ fn main() {
     rep.set_extra("controlled", json!({"base_scenarios": scenarios.len(), "scenarios_fully_enumerated": rep.counter("controlled.scenarios_exhausted")}));
     // seeded random scenarios with seeded random schedules
     let mut rng = Rng::derive(a.seed, "C30-controlled", 0);
-    for _ in 0..a.pick(25, 1500) {
+    for _ in 0..a.pick(25, 600) {
         let sc = random_scenario(&mut rng, false);
         let mut r2 = Rng::derive(a.seed, "C30-sched", rng.next_u64());
-        controlled(&rep, &sc, a.pick(6, 20), Some(&mut r2), block_wait);
+        controlled(&rep, &sc, a.pick(6, 15), Some(&mut r2), block_wait);
     }
     let t_controlled = rep.elapsed_s();
 
